@@ -288,10 +288,58 @@ package provider
 //@   ensures C10.fault-means-failure: faulted ==> httpError() || lrMsg().Status.StatusCode.Value != StatusCodeSuccess
 //@   canary C13.canary-never-success: !logoutSuccess()
 //@   canary C13.canary-always-success: !httpError() ==> logoutSuccess()
+//@ ## ---- attribute query endpoint ----
+//@ pure aq() = as(decObj, "samlp.AttributeQueryType")
+//@ pure soapEnv() = as(encRef, "soap.ResponseEnvelope")
+//@ pure aqResp() = as(mqOut, "samlp.ResponseType")
+//@ pure aqEnveloped() = aq().Signature != nil && aq().Signature.SignatureValue.Text != ""
+//@ pure answered() = emitKind == 5
+//@ pure advertisedAA(md, dest) = exists j :: 0 <= j && j < len(md.AttributeService) && dest == md.AttributeService[j].Location
+//@
+//@ func provider.verifyRequestDestinationOfAttrQuery
+//@   property C12
+//@   requires metadata != nil && request != nil
+//@   assigns nothing
+//@   enter adCalls = adCalls + 1
+//@   enter adReq = request
+//@   enter adMeta = metadata
+//@   leave adOK = (result == nil)
+//@   ensures ok-iff-absent-or-advertised: (result == nil) <==> (request.Destination == "" || advertisedAA(metadata, request.Destination))
+//@   loop 1 invariant range: -1 <= $ri && $ri < len(metadata.AttributeService)
+//@   loop 1 invariant none-so-far: (forall j :: 0 <= j && j <= $ri ==> metadata.AttributeService[j].Location != request.Destination)
+//@
+//@ func provider.makeAttributeQueryResponse
+//@   inline
+//@   property C12
+//@   enter mqCalls = mqCalls + 1
+//@   enter mqReqID = requestID
+//@   enter mqIssuer = issuer
+//@   enter mqEntity = entityID
+//@   enter mqAttrs = attributes
+//@   enter mqQBase = base(queriedAttrs)
+//@   enter mqQLen = len(queriedAttrs)
+//@   leave mqOut = result
+//@
 //@ func (*provider.IdentityProvider).attributeQueryHandleFunc
 //@   inline
 //@   property C09
 //@   requires wfIDP(p) && wfReq(r) && w != nil
+//@   requires !faulted
+//@   ensures C12,C10.exactly-one-reply: emitCount == old(emitCount) + 1
+//@   ensures C12.reply-is-error-or-one-unmodified-soap-envelope: httpError() || (answered() && encTag == typetag("*soap.ResponseEnvelope") && msgCurrent() &&
+//@             mqCalls == old(mqCalls) + 1 && soapEnv().Body.Response == mqOut && mqOut != nil)
+//@   ensures C12.answered-only-for-a-decoded-query-of-a-registered-requester: answered() ==> decCalls == old(decCalls) + 1 && decOK && decMsg == select(stream, valof(r.Body)) &&
+//@             aq().Issuer != nil && spOK && spLookups == old(spLookups) + 1 && spKey == aq().Issuer.Text
+//@   ensures C12.signature-value-implies-verified: answered() && aqEnveloped() ==> vpCalls == old(vpCalls) + 1 && vpOK && vpSP == spRef && vpDoc == b64dec(decMsg)
+//@   ensures C12.destination-check-passed-on-the-decoded-query: answered() ==> adCalls == old(adCalls) + 1 && adOK && adReq == decObj && mdCalls == old(mdCalls) + 1 && adMeta == mdAA
+//@   ensures C12.user-resolved-for-the-queried-subject: answered() ==> aq().Subject.NameID != nil && uiOK && userinfoCalls == old(userinfoCalls) + 1 &&
+//@             uiLogin == aq().Subject.NameID.Text && mqAttrs == uiObj
+//@   ensures C12.response-built-for-this-query-and-requester: answered() ==> mqReqID == aq().Id && mqEntity == spMeta().EntityID && mqIssuer == idpEntityID(p, r)
+//@   ensures C12,C04.assertion-signed-as-sent: answered() ==> keyOK && aqResp().Assertion.Signature == sigOut && sigOut != nil && signCount == old(signCount) + 1 &&
+//@             signedTag == typetag("saml.AssertionType") && encVer == signedVer + 1 &&
+//@             eqExcept(as(signedBox, "saml.AssertionType"), aqResp().Assertion, "Signature") && as(signedBox, "saml.AssertionType").Signature == nil
+//@   ensures C10.fault-means-error-reply: faulted ==> httpError() && emitCode >= 500
+//@   canary C12.canary-never-answered: !answered()
 //@ func (*provider.IdentityProvider).certificateHandleFunc
 //@   inline
 //@   property C09
@@ -329,6 +377,12 @@ package provider
 //@ func (*provider.IdentityProviderConfig).getMetadata
 //@   inline
 //@   property C11
+//@   names sso, aa
+//@   enter mdCalls = mdCalls + 1
+//@   enter mdIssuer = issuer
+//@   enter mdEntity = entityID
+//@   leave mdSSO = sso
+//@   leave mdAA = aa
 //@   loop 1 assigns fresh
 //@   loop 2 assigns fresh
 //@
